@@ -81,7 +81,7 @@ class Run:
         rc, out = v.go_test(self.sc, pkgdir, self.overlay(hname, pkgdir), runre, e, race=race,
                             timeout=timeout)
         if rc != 0 or not os.path.exists(outp):
-            raise v.MachineryError("harness failed (rc=%s) %s %s:\n%s" % (rc, pkgdir, runre, out[-6000:]))
+            raise v.MachineryError("harness failed (rc=%s) %s %s:\n%s\n[...]\n%s" % (rc, pkgdir, runre, out[:3000], out[-3000:]))
         if "no tests to run" in out:
             raise v.MachineryError("harness test %s not found in %s" % (runre, pkgdir))
         traces = v.split_traces(v.read_ndjson(outp))
@@ -112,6 +112,11 @@ class Run:
             self.gaps.append({"group": group, "trace_index": ti, "line": off, "event": line})
         failed = {}
         for ti, inv, off in val.failures:
+            if not inv.startswith("C"):
+                # Gap_* / Conf_* invariants are harness-sanity checks, not property verdicts
+                self.gaps.append({"group": group, "trace_index": ti, "line": off, "invariant": inv,
+                                  "event": traces[ti][off] if off < len(traces[ti]) else None})
+                continue
             failed.setdefault(ti, []).append((inv, off))
         for ti, lst in failed.items():
             inv, off = lst[0]
